@@ -80,6 +80,27 @@ func (k kase) render() string {
 			fmt.Fprintf(w, "\tvar y %s\n\tuse(y)\n", k.B)
 		}
 	}
+	if strings.HasPrefix(k.Ctx, "complit-") {
+		// a composite literal of CompLit.tla (k.A is its text) at the place k.B
+		decl.WriteString("type P struct{ X, Y int }\n")
+		switch k.B {
+		case "define":
+			fmt.Fprintf(&body, "\tx := %s\n\tuse(x)\n", k.A)
+		case "pkgvar":
+			fmt.Fprintf(&decl, "var gx = %s\n", k.A)
+			body.WriteString("\tuse(gx)\n")
+		case "arg":
+			fmt.Fprintf(&body, "\tuse(%s)\n", k.A)
+		case "return":
+			fmt.Fprintf(&decl, "func rl() interface{} {\n\treturn %s\n}\n", k.A)
+			body.WriteString("\tuse(rl())\n")
+		case "nested":
+			fmt.Fprintf(&body, "\tx := []interface{}{1, %s}\n\tuse(x)\n", k.A)
+		case "unused-func":
+			fmt.Fprintf(&decl, "func never() {\n\tx := %s\n\tuse(x)\n}\n", k.A)
+		}
+		return header + decl.String() + "\nfunc main() {\n\tfmt.Println(\"MAIN\")\n" + body.String() + "}\n"
+	}
 	switch k.Ctx {
 	case "assign":
 		fmt.Fprintf(&body, "\tvar x %s\n", k.A)
@@ -404,6 +425,9 @@ func pipeline(c *fw.Ctx) error {
 
 // group names the part of the type checker a case exercises (one known finding per group).
 func group(k kase) string {
+	if strings.HasPrefix(k.Ctx, "complit-") {
+		return "composite literal of kind " + k.AK
+	}
 	switch k.Ctx {
 	case "assign", "vardecl", "arg", "return", "slice-elem", "map-value", "struct-field", "append":
 		return "assignability in " + k.Ctx
@@ -424,6 +448,16 @@ func group(k kase) string {
 		return k.Ctx
 	}
 	return "operand of " + k.Ctx
+}
+
+var placeNo = map[string]int{"define": 0, "pkgvar": 1, "arg": 2, "return": 3, "nested": 4, "unused-func": 5}
+
+func hashStr(s string) uint32 {
+	h := uint32(2166136261)
+	for i := 0; i < len(s); i++ {
+		h = (h ^ uint32(s[i])) * 16777619
+	}
+	return h % 1000003
 }
 
 func firstLine(s string) string {
@@ -449,7 +483,7 @@ func goTypes(imp types.Importer, src string) error {
 }
 
 func run(c *fw.Ctx) error {
-	c.Rule = "the complete table of TypeRules.tla: every context (8 assignment-like contexts, conversion, 4 binary operators, conditions, append, 12 unary/builtin/selector contexts, type assertion, arity and undefined-name cases) x every operand type tuple over 19 types and 9 untyped constants; non-trivial = every case (each is a distinct (context, types) tuple); distinct by (context, a, b)"
+	c.Rule = "the complete table of TypeRules.tla: every context (8 assignment-like contexts, conversion, 4 binary operators, conditions, append, 12 unary/builtin/selector contexts, type assertion, arity and undefined-name cases) x every operand type tuple over 19 types and 9 untyped constants, plus the family of CompLit.tla (every array, slice, [...] , struct and map literal of up to 3 elements with optional keys x 6 places); non-trivial = every case (each is a distinct (context, types) tuple); distinct by (context, a, b)"
 	c.Assumptions = []string{
 		"go/types (installed toolchain, go1.22 language version) validates the verdict of the specification on every case",
 		"\"ok\" cases are compiled (Interpreter.Compile), \"err\" cases are evaluated (Eval) so that any execution is visible as output",
@@ -476,6 +510,27 @@ func run(c *fw.Ctx) error {
 		if res.Violated != "" {
 			return fmt.Errorf("TypeRules.tla: %s", res.Violated)
 		}
+		// malformed composite literals (CompLit.tla): every small array, slice, struct and map literal x place
+		nlit := 0
+		res, err = c.TLC(fw.TLCOpts{Dir: "spec/types", Module: "CompLit", Cfg: "CompLit.cfg", Workers: 2, Timeout: 5 * time.Minute,
+			OnBeh: func(r json.RawMessage) {
+				var k kase
+				if json.Unmarshal(r, &k) == nil {
+					// quick: every literal at two of the six places (chosen by the literal), thorough: everywhere
+					if c.Quick() && (int(hashStr(k.A))+placeNo[k.B])%3 != 0 {
+						return
+					}
+					cases = append(cases, k)
+					nlit++
+				}
+			}})
+		if err != nil {
+			return err
+		}
+		if res.Violated != "" {
+			return fmt.Errorf("CompLit.tla: %s", res.Violated)
+		}
+		c.Extra["composite_literal_cases"] = nlit
 		c.Exhaustive = true
 	}
 	imp := importer.ForCompiler(token.NewFileSet(), "source", nil)
